@@ -31,6 +31,16 @@ func Root() string {
 	return "/verif"
 }
 
+// OutRoot is where evidence/ and artifacts/ are written: VERIF_OUT when set (scratch runs against a
+// modified copy of the repository must not touch the committed evidence), else Root().
+func OutRoot() string {
+	if r := os.Getenv("VERIF_OUT"); r != "" {
+		return r
+	}
+
+	return Root()
+}
+
 // Finding is one entry of known_findings.json.
 type Finding struct {
 	Property  string `json:"property"`
@@ -248,7 +258,7 @@ func (c *C) Violation(sig string, detail any) bool {
 		return true
 	}
 
-	dir := filepath.Join(Root(), "artifacts", c.ID)
+	dir := filepath.Join(OutRoot(), "artifacts", c.ID)
 	_ = os.MkdirAll(dir, 0o755)
 
 	path := filepath.Join(dir, fmt.Sprintf("%s-seed%d-%s-%d.json", c.Tier, c.Seed, sanitize(sig), c.vioSigs[sig]))
@@ -376,7 +386,7 @@ func (c *C) finish() {
 		os.Exit(3)
 	}
 
-	out := envOr("VERIF_EVIDENCE", filepath.Join(Root(), "evidence", c.ID+".json"))
+	out := envOr("VERIF_EVIDENCE", filepath.Join(OutRoot(), "evidence", c.ID+".json"))
 	_ = os.MkdirAll(filepath.Dir(out), 0o755)
 
 	if err := os.WriteFile(out, b, 0o644); err != nil {
